@@ -595,6 +595,221 @@ theorem T_C15_misuse (v : Variant) (attr : Toks) (item : Item) (m : String) (ms 
         | some it => exact ⟨_, hmemU, by simp only [hf, Outcome.ofPErr]⟩
 
 
+/-! ### conversely: an invocation without any listed misuse expands -/
+
+theorem detectDepMode_ok_of_noConcrete (mode : InputMode) (hm : mode ≠ .rawTrait) :
+    ∀ (fns : List TraitFn), (∀ tf ∈ fns, ∀ ty, tf.deps ≠ .concrete ty) → detectDepMode mode fns = .ok .generic
+  | [], _ => rfl
+  | tf :: fns, h => by
+      unfold detectDepMode
+      split
+      · rename_i ty hty
+        exact absurd hty (h tf List.mem_cons_self ty)
+      · exact detectDepMode_ok_of_noConcrete mode hm fns (fun x hx => h x (List.mem_cons_of_mem _ hx))
+
+theorem noConcrete_of_match : ∀ (sigs : List Sig) (fns : List TraitFn),
+    zipAll C04.depsMatch sigs fns = true → sigs.any Sig.depIsConcrete = false →
+      ∀ tf ∈ fns, ∀ ty, tf.deps ≠ .concrete ty :=
+  fun sigs fns hz hc => (C04.depsBounds_of_zip sigs fns hz hc).2
+
+/-- the shared tail of mod / impl expansion succeeds when no function is misused -/
+theorem fnsPipeline_ok (kind : ReceiverKind) (mode : InputMode) (smode : Mode)
+    (hmode : (mode = .module ∧ smode = .mod_) ∨ (mode = .implBlock ∧ smode = .impl))
+    (opts : Opts) (sigs : List Sig) (traitRef : Toks) (ind : ImplIndirection)
+    (subAttrs : List Attr) (k : List TraitFn → TraitGenerics → DepMode → GenImpl → Outcome)
+    (hk : ∀ fns tg d im, ∃ out, k fns tg d im = .ok out)
+    (hnone : sigs.flatMap (sigMisuses opts.noDepsValue smode) = []) :
+    ∃ out,
+      (match analyzeFns kind opts sigs {} with
+       | .error e => Outcome.ofErr e
+       | .ok (fns, tg) =>
+         match detectDepMode mode fns with
+         | .error e => Outcome.ofErr e
+         | .ok depMode =>
+           match genImplBlock opts traitRef ind tg mode depMode subAttrs fns with
+           | .error site => .panic site
+           | .ok im => k fns tg depMode im) = .ok out := by
+  have hm : mode ≠ .rawTrait := by rcases hmode with ⟨rfl, _⟩ | ⟨rfl, _⟩ <;> decide
+  -- analysis succeeds and no dependency is concrete
+  have hA : ∃ fns tg, analyzeFns kind opts sigs {} = .ok (fns, tg) ∧ ∀ tf ∈ fns, ∀ ty, tf.deps ≠ .concrete ty := by
+    cases hn : opts.noDepsValue with
+    | true =>
+      -- `no_deps`: every function is analysed, with `FnDeps.noDeps`
+      have hall : ∀ (sigs : List Sig) (tg : TraitGenerics), ∃ fns tg',
+          analyzeFns kind opts sigs tg = .ok (fns, tg') ∧ ∀ tf ∈ fns, tf.deps = .noDeps := by
+        intro sigs
+        induction sigs with
+        | nil => intro tg; exact ⟨[], tg, rfl, by simp⟩
+        | cons s rest ih =>
+          intro tg
+          have hd : analyzeFnDeps s opts tg = .ok (.noDeps, depsWithGenerics s.generics tg) := by
+            simp [analyzeFnDeps, hn]
+          obtain ⟨tf, htf, hdeps⟩ := analyzeFn_of_deps (kind := kind) hd
+          obtain ⟨fns, tg2, hok, hnd⟩ := ih (depsWithGenerics s.generics tg)
+          refine ⟨tf :: fns, tg2, ?_, ?_⟩
+          · unfold analyzeFns; simp only [htf, hok]
+          · intro x hx
+            rcases List.mem_cons.mp hx with rfl | hx
+            · exact hdeps
+            · exact hnd x hx
+      obtain ⟨fns, tg, hok, hnd⟩ := hall sigs {}
+      exact ⟨fns, tg, hok, fun tf htf ty => by rw [hnd tf htf]; simp⟩
+    | false =>
+      rw [hn] at hnone
+      rcases analyzeFns_misuse kind hn sigs {} with ⟨s, hs, m, hm', _⟩ | ⟨hall, fns, tg', hok, hz⟩
+      · exfalso
+        have : m ∈ sigs.flatMap (sigMisuses false smode) := by
+          rw [List.mem_flatMap]; exact ⟨s, hs, by simp [sigMisuses, hm']⟩
+        rw [hnone] at this; simp at this
+      · have hc : sigs.any Sig.depIsConcrete = false := by
+          rw [List.any_eq_false]
+          intro s hs
+          cases hcs : s.depIsConcrete with
+          | false => simp
+          | true =>
+            exfalso
+            have hmem : ∃ m, m ∈ sigMisuses false smode s := by
+              rcases hmode with ⟨_, rfl⟩ | ⟨_, rfl⟩ <;> simp [sigMisuses, hall s hs, hcs, concreteMisuse]
+            obtain ⟨m, hm'⟩ := hmem
+            have : m ∈ sigs.flatMap (sigMisuses false smode) := by
+              rw [List.mem_flatMap]; exact ⟨s, hs, hm'⟩
+            rw [hnone] at this; simp at this
+        exact ⟨fns, tg', hok, noConcrete_of_match sigs fns hz hc⟩
+  obtain ⟨fns, tg, hok, hnc⟩ := hA
+  have hdm := detectDepMode_ok_of_noConcrete mode hm fns hnc
+  have hall := analyzeFns_all kind opts (fun tf => allPlain tf.sig.inputs = true)
+    (fun _ _ _ _ h => analyzeFn_allPlain h) sigs {} tg fns hok
+  obtain ⟨im, him⟩ := genImplBlock_total opts traitRef ind tg mode .generic subAttrs fns hall
+  obtain ⟨out, hout⟩ := hk fns tg .generic im
+  exact ⟨out, by simp only [hok, hdm, him, hout]⟩
+
+/-- **acceptance**: when the attribute arguments and the item are well-formed at the syn level and
+    none of the documented misuses is present, the model expands (for a single fn: also with a
+    concrete dependency) -/
+theorem T_C15_accepts (v : Variant) (attr : Toks) (item : Item) (h : specMisuses attr item = some []) :
+    ∃ out, expand v attr item = .ok out := by
+  cases item with
+  | fn f =>
+    simp only [specMisuses] at h
+    simp only [expand]
+    unfold expandFn
+    cases h1 : parseFnAttr attr with
+    | error e => rw [h1] at h; cases e <;> simp at h
+    | ok a =>
+      rw [h1] at h
+      simp only [Option.some.injEq] at h
+      simp only []
+      -- the dependency analysis succeeds
+      have hd : ∃ r, analyzeFnDeps f.sig (v.apply a.opts) {} = .ok r := by
+        cases hn : (v.apply a.opts).noDepsValue with
+        | true => exact ⟨(.noDeps, depsWithGenerics f.sig.generics {}), by simp [analyzeFnDeps, hn]⟩
+        | false =>
+          have hn0 : a.opts.noDepsValue = false := by rw [← apply_noDepsValue v]; exact hn
+          rw [hn0] at h
+          have hde : depsError f.sig = none := by
+            cases hde : depsError f.sig with
+            | none => rfl
+            | some m => simp [sigMisuses, hde] at h
+          exact (analyzeFnDeps_misuse hn f.sig {}).2 hde
+      obtain ⟨⟨deps, tg⟩, hd⟩ := hd
+      obtain ⟨tf, htf, _⟩ := analyzeFn_of_deps (kind := .selfRef) hd
+      simp only [htf]
+      have hdm : ∃ d, detectDepMode .singleFn [tf] = .ok d := by
+        unfold detectDepMode
+        split
+        · exact ⟨_, rfl⟩
+        · exact ⟨_, rfl⟩
+      obtain ⟨d, hdm⟩ := hdm
+      simp only [hdm]
+      obtain ⟨im, him⟩ := genImplBlock_total (v.apply a.opts) [i a.traitIdent] .none tg .singleFn d f.attrs [tf]
+        (by intro x hx; simp at hx; subst hx; exact analyzeFn_allPlain htf)
+      simp only [him]
+      exact ⟨_, rfl⟩
+  | mod_ m =>
+    simp only [specMisuses] at h
+    simp only [expand]
+    split at h
+    · simp at h
+    · rename_i hu
+      simp only [hu, Bool.false_eq_true, if_false]
+      unfold expandMod
+      cases h0 : splitBody false m.oracle m.body.length m.body with
+      | error e => rw [h0] at h; simp at h
+      | ok items =>
+        rw [h0] at h
+        simp only []
+        cases h1 : parseFnAttr attr with
+        | error e => rw [h1] at h; cases e <;> simp at h
+        | ok a =>
+          rw [h1] at h
+          simp only [Option.some.injEq] at h
+          simp only []
+          have hfm : ((items.filterMap BodyItem.fn?).map (·.sig)).flatMap (sigMisuses (v.apply a.opts).noDepsValue .mod_) = [] := by
+            rw [List.flatMap_map, apply_noDepsValue]; exact h
+          exact fnsPipeline_ok .selfRef .module .mod_ (Or.inl ⟨rfl, rfl⟩) (v.apply a.opts) _ [i a.traitIdent] .none m.attrs
+            (fun fns tg d im => .ok (.modOut m items
+              [.trait (genTraitDef (v.apply a.opts) .plain d m.attrs a.traitVis a.traitIdent tg {} fns .module), .impl im]
+              [.raw (a.traitVis ++ [i "use", i m.ident] ++ pathSep ++ [i a.traitIdent, p ';'])]))
+            (fun _ _ _ _ => ⟨_, rfl⟩) hfm
+  | impl m =>
+    simp only [specMisuses] at h
+    simp only [expand]
+    unfold expandImpl
+    cases h0 : splitBody true m.oracle m.body.length m.body with
+    | error e => rw [h0] at h; simp at h
+    | ok items =>
+      rw [h0] at h
+      simp only []
+      cases h1 : parseImplAttr attr with
+      | error e => rw [h1] at h; cases e <;> simp at h
+      | ok a =>
+        rw [h1] at h
+        simp only [Option.some.injEq] at h
+        simp only []
+        have hn' : (v.apply a.opts).noDepsValue = false := impl_noDepsValue h1
+        have hfm : ((items.filterMap BodyItem.fn?).map (·.sig)).flatMap (sigMisuses (v.apply a.opts).noDepsValue .impl) = [] := by
+          rw [List.flatMap_map, hn']; exact h
+        exact fnsPipeline_ok _ .implBlock .impl (Or.inr ⟨rfl, rfl⟩) (v.apply a.opts) _ m.traitPath _ m.attrs
+          (fun fns tg d im => .ok (.implOut
+            (printAttrs (m.attrs.filter (fun a => a.subKind != .asyncTrait)) ++
+              (if m.unsafe_ then [i "unsafe"] else []) ++ [i "impl"] ++ m.selfTy ++ [braces (items.flatMap BodyItem.print)])
+            [.impl im]))
+          (fun _ _ _ _ => ⟨_, rfl⟩) hfm
+  | trait t =>
+    simp only [specMisuses] at h
+    simp only [expand]
+    unfold expandTrait
+    cases h1 : parseTraitAttr attr with
+    | error e => rw [h1] at h; cases e <;> simp at h
+    | ok a =>
+      rw [h1] at h
+      simp only [Option.some.injEq, List.append_eq_nil_iff] at h
+      obtain ⟨hdel, hoth⟩ := h
+      simp only []
+      have hother : t.members.any TraitMember.isOther = false := by
+        cases ho : t.members.any TraitMember.isOther with
+        | false => rfl
+        | true => simp [ho] at hoth
+      obtain ⟨fns, hf⟩ := (analyzeTraitMembers_misuse t.members).2 hother
+      cases hi : a.implTrait with
+      | none =>
+        cases hd : a.delegation with
+        | none => simp only [hf, genDelegationTraitDefs, hi]; exact ⟨_, rfl⟩
+        | some d =>
+          cases d with
+          | byTrait dn => simp [hi, hd, delegationMisuses] at hdel
+          | bySelf => simp only [hf, genDelegationTraitDefs, hi]; exact ⟨_, rfl⟩
+          | byRef b => simp only [hf, genDelegationTraitDefs, hi]; exact ⟨_, rfl⟩
+      | some it =>
+        obtain ⟨ivis, iid⟩ := it
+        cases hd : a.delegation with
+        | none => simp [hi, hd, delegationMisuses] at hdel
+        | some d =>
+          cases d with
+          | bySelf => simp [hi, hd, delegationMisuses] at hdel
+          | byTrait dn => simp only [hf, genDelegationTraitDefs, hi, hd]; exact ⟨_, rfl⟩
+          | byRef b => simp only [hf, genDelegationTraitDefs, hi, hd]; exact ⟨_, rfl⟩
+
 /-- non-vacuity: a function without a dependency parameter, and a concrete dependency in a module -/
 example : specMisuses [i "Foo"] (.fn { sig := { ident := "f" } }) = some [msgNoReceiver] ∧
     expand .plain [i "Foo"] (.fn { sig := { ident := "f" } }) = .diag msgNoReceiver := by decide +kernel
